@@ -96,7 +96,7 @@ def valid_configs(det, tier):
     if det == "PELT":
         for m in (1, 2, 3) + ((5,) if th else ()):
             for ps in (0.0, 0.5, 2.0):
-                for sc in (None, "GVar") + (("GCov",) if th else ()):
+                for sc in (None, "GVar") + (("GCov",) if (th or ps == 0.5) else ()):
                     out.append({"det": det, "params": {"min_segment_length": m, "penalty_scale": ps}, "scorer": sc})
     elif det == "MovingWindow":
         for b in (1, 2, 3) + ((5,) if th else ()):
